@@ -95,6 +95,7 @@ def norm_options(o):
         sel = {
             "kind": "jobs" if sel.get("kind") == "jobs" else "ids",
             "idx": [i for i in (sel.get("idx") or []) if isinstance(i, int) and not isinstance(i, bool)],
+            "form": sel.get("form") if sel.get("form") in ("list", "tuple", "generator", "iterator") else "list",
         }
     else:
         sel = None
@@ -365,6 +366,14 @@ def invoke(plan, src_root, dst_root, **override):
                             selection.append(jid)
                         else:
                             selection.append((src if jid in in_src else dst).open_job(id=jid))
+                    # a selection is "a sequence of jobs or job ids" as far as the docs go, any iterable in practice
+                    form = plan["opts"]["selection"].get("form")
+                    if form == "generator":
+                        selection = (x for x in list(selection))
+                    elif form == "iterator":
+                        selection = iter(list(selection))
+                    elif form == "tuple":
+                        selection = tuple(selection)
                 kwargs = dict(
                     strategy=strategy,
                     exclude=mk_exclude(),
@@ -728,7 +737,8 @@ SP_POOL = [
 BIG_A = ("0123456789abcdef" * 600)[:9100]
 BIG_B = ("fedcba9876543210" * 600)[:9100]
 SAME_SIZE = [("a", "b"), ("ab", "ba"), ("hello\n", "HELLO\n"), ("\x00\xff", "\xff\x00"), (BIG_A, BIG_B)]
-DIFF_SIZE = [("a", "ab"), ("", "b"), ("hello\n", "a"), ("\x00\xff\x01", ""), (BIG_A, "x")]
+CHUNK = "0123456789abcdef" * 512  # 8 KiB: one read of a chunked comparison
+DIFF_SIZE = [("a", "ab"), ("", "b"), ("hello\n", "a"), ("\x00\xff\x01", ""), (BIG_A, "x"), (CHUNK, CHUNK + "tail"), (CHUNK + CHUNK, CHUNK + CHUNK + CHUNK)]
 CONTENTS = ["", "a", "b", "ab", "hello\n", "\x00\xff\x01", BIG_A]
 EXCLUDES = ["g.*", ["f\\.txt"], "sub", ["h.*", "g.*"], ".*\\.txt", "i", ["deep"], "signac_statepoint\\.json\\.bak"]
 DOC_VALUES = [0, 1, 2, "s", "t", [1, 2], [1], None, 2.5]
@@ -866,7 +876,8 @@ def option_sets(draw, mode):
     if draw(st.integers(0, p_ex)) == 0:
         o["exclude"] = draw(st.sampled_from(EXCLUDES))
     if draw(st.integers(0, p_sel)) == 0:
-        o["selection"] = {"kind": draw(st.sampled_from(["ids", "jobs"])), "idx": draw(st.lists(st.integers(0, 4), max_size=4, unique=True))}
+        o["selection"] = {"kind": draw(st.sampled_from(["ids", "jobs"])), "idx": draw(st.lists(st.integers(0, 4), max_size=4, unique=True)),
+                          "form": draw(st.sampled_from(["list", "list", "tuple", "generator", "iterator"]))}
     if mode == "c15":
         o["dry_run"] = draw(st.integers(0, 9)) < 4
         o["deep"] = draw(st.integers(0, 3)) == 0
